@@ -1,12 +1,23 @@
 (* C08 - DSL objects are equal exactly when they are structurally identical. Statements only. *)
 Require Import List Bool ZArith.
-From FV Require Import Lib.Tree Model.C08.
+From FV Require Import Lib.Tree Model.C08 Proofs.C08.
 Import ListNotations.
 
 (* equality is structural identity: for all objects of any size and nesting *)
 Theorem C08_eq_structural : forall a b, heq a b = true <-> a = b.
 Proof. exact tree_eqb_spec. Qed.
 Print Assumptions C08_eq_structural.
+
+(* the implementation's ALGORITHM (series.py `identical`: same class, equal hashes, element-wise equal content, the
+   elements compared by the same algorithm) is structural identity whatever hash() returns for an object *)
+Theorem C08_algorithm : forall (h : tree -> Z) a b, impl_eq h a b = true <-> a = b.
+Proof. exact impl_eq_spec. Qed.
+Print Assumptions C08_algorithm.
+
+(* ... whereas equality by hash alone - the code before the fix - confuses distinct objects: hash(-1) = hash(-2) *)
+Theorem C08_hash_only_refuted : exists a b, a <> b /\ Z.eqb (pyhash_leaf a) (pyhash_leaf b) = true.
+Proof. exact hash_only_refuted. Qed.
+Print Assumptions C08_hash_only_refuted.
 
 (* equal objects hash equal, so they are interchangeable as mapping keys *)
 Theorem C08_hash_consistent : forall a b, heq a b = true -> hhash a = hhash b.
